@@ -1,8 +1,9 @@
 import RsslVerif.Model.ConstEvalWf
+import RsslVerif.Model.ConstPos
 import RsslVerif.Driver.Util
 /-! Line-protocol front end of the C13 model: `C13.eval <ir s-expression> [src:...]`. -/
 namespace RsslVerif.Driver.C13
-open RsslVerif.Gen.EvalTable RsslVerif.Model.ConstEval RsslVerif.Driver
+open RsslVerif.Gen.EvalTable RsslVerif.Gen.PosTable RsslVerif.Model.ConstEval RsslVerif.Model.ConstPos RsslVerif.Driver
 
 def tokens (s : String) : List String :=
   let rec go (cs : List Char) (cur : List Char) (acc : List String) : List String :=
@@ -154,6 +155,201 @@ def showRes : Res → String
   | .error (.panic m) => "panic:" ++ m
   | .error .stuck => "unsupported: table entry the model cannot interpret"
 
+/-! ## positions (`C13.pos <site> <src> <aux>`) and whole enum definitions (`C13.enum <members> <aux>`) -/
+
+def unsupportedStuck : String := "unsupported: table entry the model cannot interpret"
+
+/-- labels of the diagnostics, as the harness abbreviates them (first five words, letters only) -/
+def lblArrayConst := "reject:array dimensions must be constant"
+def lblArrayZero := "reject:array dimensions must be nonzero"
+def lblStateInt := "reject:state requires an integer argument"
+def lblStateFloat := "reject:state requires a float argument"
+def lblUnroll := "reject:attribute unnroll requires a constant"
+def lblNotConst := "reject:expression could not be evaluated"
+def lblEnumInt := "reject:enum value must be an"
+def lblEnumOverflow := "reject:enum value overflows the type"
+def lblEnumRange := "reject:enum range  to "
+
+/-- a count-taking site: prefix and decorations of the accepted form, labels of the three rejections -/
+def showCount (o : Out) (pre post lNotConst lZero lRange : String) : String :=
+  match o with
+  | .count n => pre ++ toString n ++ post
+  | .notConstant => lNotConst
+  | .zeroSize => lZero
+  | .outOfRange => lRange
+  | .panic m => "panic:" ++ m
+  | _ => unsupportedStuck
+
+def showStored (o : Out) (twice : Bool) (lNotConst : String) : String :=
+  match o with
+  | .stored c => if twice then "val:" ++ showConst c ++ "," ++ showConst c else "val:" ++ showConst c
+  | .notConstant => lNotConst
+  | .panic m => "panic:" ++ m
+  | _ => unsupportedStuck
+
+def cls? (s : String) : Option Cls :=
+  let s := if s.endsWith "!" then (s.dropEnd 1).toString else s
+  match s with
+  | "bool" => some (.scalar .Bool)
+  | "lit" => some (.scalar .IntLiteral)
+  | "int" => some (.scalar .Int32)
+  | "uint" => some (.scalar .UInt32)
+  | "other" => some .other
+  | _ => (enumTy? s).map fun (id, u) => .enum id u
+
+def enumErrLabel : EnumErr → String
+  | .mustBeInteger _ => lblEnumInt
+  | .notConstant _ => lblNotConst
+  | .overflow _ => lblEnumOverflow
+  | .cannotDeduce _ _ => lblEnumRange
+  | .panic m => "panic:" ++ m
+  | .stuck => unsupportedStuck
+
+/-- `<cls> <tree...>` -/
+def parseMember1 (s : String) : Option (Cls × Expr) :=
+  match s.splitOn " " with
+  | c :: rest => do
+    let cls ← cls? c
+    let e ← parseTree (" ".intercalate rest)
+    pure (cls, e)
+  | _ => none
+
+/-- enum sites: the definition around the hole, and the index of the observed enumerator -/
+def enumSite (site : String) (m : Cls × Expr) : Option (List Member × Nat) :=
+  match site with
+  | "enum" | "enum_ns" => some ([some m], 0)
+  | "enumnext" => some ([some m, none], 1)
+  | "enum_after0" => some ([none, some m], 1)
+  | _ => none
+
+def dimSite (res : Res) (pre post lbl : String) : String :=
+  match templateSite res with
+  | .stored c =>
+    (match toUint64 c with
+     | some n => if 1 ≤ n ∧ n ≤ 4 then "dim:" ++ pre ++ toString n ++ post else lbl
+     | none => lbl)
+  | .notConstant => lblNotConst
+  | .panic m => "panic:" ++ m
+  | _ => unsupportedStuck
+
+/-- a template argument used as an array size inside the template -/
+def templateArraySite (res : Res) (lTemplate : String) (inStruct : Bool) : String :=
+  match templateSite res with
+  | .stored c =>
+    -- a struct template that fails to instantiate makes `TS<..> ts;` be read as an expression statement
+    if inStruct then showCount (sizeSite arraySize (.ok c)) "len:" "" lTemplate lTemplate lTemplate
+    else showCount (sizeSite arraySize (.ok c)) "len:" "" lblArrayConst lblArrayZero lblArrayConst
+  | .notConstant => lTemplate
+  | .panic m => "panic:" ++ m
+  | _ => unsupportedStuck
+
+def handlePos (site aux : String) : String :=
+  let arr (pre post : String) : String :=
+    match parseTree aux with
+    | some e => showCount (sizeSite arraySize (eval e)) ("len:" ++ pre) post lblArrayConst lblArrayZero lblArrayConst
+    | none => "bad-request"
+  let cnt (r : SizeRule) (pre lbl : String) : String :=
+    match parseTree aux with
+    | some e => showCount (sizeSite r (eval e)) pre "" lbl lbl lbl
+    | none => "bad-request"
+  let init (isConst : Bool) : String :=
+    match parseTree aux with
+    | some e =>
+      (match constInitSite isConst (eval e) with
+       | .stored c => "val:" ++ showConst c
+       | .notConstant => "notconst"
+       | .panic m => "panic:" ++ m
+       | _ => unsupportedStuck)
+    | none => "bad-request"
+  match site with
+  | "array" | "array_local" | "array_member" | "array_param" | "array_typedef" | "array_cbuffer" | "array_shared"
+  | "array_multi" => arr "" ""
+  | "array_outer" => arr "" ",3"
+  | "array_inner" => arr "2," ""
+  | "numthreads" | "numthreads_y" | "numthreads_z" => cnt numthreads "threads:" lblStateInt
+  | "unroll" | "unroll_while" => cnt unroll "count:" lblUnroll
+  | "bindgroup" | "vkbinding_set" => cnt exprAsU32 "group:" lblNotConst
+  | "vkbinding" => cnt exprAsU32 "index:" lblNotConst
+  | "pipelineprop" => cnt pipelineUint "group:" lblStateInt
+  | "maxanisotropy" => cnt pipelineUint "aniso:" lblStateInt
+  | "writemask" =>
+    (match parseTree aux with
+     | some e => showCount (writeMaskSite (eval e)) "mask:" "" lblStateInt lblStateInt lblStateInt
+     | none => "bad-request")
+  | "minlod" | "maxlod" =>
+    (match parseTree aux with
+     | some e =>
+       (match lodSite (eval e) with
+        | .lod b => "lod:" ++ hexPad 8 b
+        | .notConstant => lblStateFloat
+        | .panic m => "panic:" ++ m
+        | _ => unsupportedStuck)
+     | none => "bad-request")
+  | "case" | "case_enum" | "case_uint" | "case_nested" =>
+    (match parseTree aux with | some e => showStored (caseSite (eval e)) false lblNotConst | none => "bad-request")
+  | "case_twice" =>
+    (match parseTree aux with | some e => showStored (caseSite (eval e)) true lblNotConst | none => "bad-request")
+  | "template" | "template_int" | "template_bool" | "template_mixed" | "template_two" =>
+    (match parseTree aux with | some e => showStored (templateSite (eval e)) false lblNotConst | none => "bad-request")
+  | "tbody_array" => (match parseTree aux with | some e => templateArraySite (eval e) lblNotConst false | none => "bad-request")
+  | "tstruct_array" | "tstruct_two" =>
+    (match parseTree aux with | some e => templateArraySite (eval e) "reject:identifier TS is not expected" true | none => "bad-request")
+  | "vector_dim" => (match parseTree aux with | some e => dimSite (eval e) "" "" "reject:vector was not declared in" | none => "bad-request")
+  | "matrix_rows" => (match parseTree aux with | some e => dimSite (eval e) "" ",2" "reject:matrix was not declared in" | none => "bad-request")
+  | "matrix_cols" => (match parseTree aux with | some e => dimSite (eval e) "3," "" "reject:matrix was not declared in" | none => "bad-request")
+  | "nonconst" | "localnonconst" => init false
+  | "constint" | "constuint" | "constbool" | "constfloat" | "constdouble" | "consthalf" | "constenum" | "constplain"
+  | "nsconst" | "constbrace" | "localconst" | "localstatic" | "forconst" | "blockconst" | "elseconst" | "whileconst"
+  | "consttypedef" | "constmulti" => init true
+  | "enum" | "enum_ns" | "enumnext" | "enum_after0" =>
+    (match parseMember1 aux with
+     | none => "bad-request"
+     | some m =>
+       match enumSite site m with
+       | none => "unsupported: site"
+       | some (ms, idx) =>
+         match defineEnum ms with
+         | .ok (_, vals) => (match vals[idx]? with | some c => "val:" ++ showConst c | none => "bad-request")
+         | .error e => enumErrLabel e)
+  | _ => "unsupported: the position is outside the model"
+
+/-- `<cls>[!] <refs> <tree...>` → (member, exact type recorded, referenced enumerators) -/
+def parseMemberFull (s : String) : Option (Member × Bool × List Nat) :=
+  if s == "-" then some (none, true, []) else
+  match s.splitOn " " with
+  | c :: r :: rest => do
+    let cls ← cls? c
+    let e ← parseTree (" ".intercalate rest)
+    let refs ← if r == "-" then some [] else (r.splitOn ",").mapM (·.toNat?)
+    pure (some (cls, e), !c.endsWith "!", refs)
+  | _ => none
+
+/-- per enumerator: is the type recorded for it the plain type of the literal a later reference becomes?  An
+initialiser of const-qualified or enum type records that type (flag from the harness); an enumerator without initialiser
+inherits the recorded type of its predecessor, except after a `bool` value, where it is a fresh `int`. -/
+def exactFlags (prev : Option (Bool × Bool)) : List (Member × Bool × List Nat) → List Bool
+  | [] => []
+  | (some (cls, _), ex, _) :: r => ex :: exactFlags (some (ex, cls == .scalar .Bool)) r
+  | (none, _, _) :: r =>
+    let ex := match prev with | none => true | some (pe, pb) => if pb then true else pe
+    ex :: exactFlags (some (ex, false)) r
+
+def refsInexact (ms : List (Member × Bool × List Nat)) : Bool :=
+  let exact := exactFlags none ms
+  ms.any fun m => m.2.2.any fun k => !(exact.getD k true)
+
+def handleEnum (aux : String) : String :=
+  match (aux.splitOn " | ").mapM parseMemberFull with
+  | none => "bad-request"
+  | some ms =>
+    if refsInexact ms then
+      "unsupported: reference to an enumerator whose recorded type differs from the literal's (debug self-check of parse_expr_internal, outside the model)"
+    else
+      match defineEnum (ms.map (·.1)) with
+      | .ok (u, vals) =>
+        "under:" ++ (if u == .UInt32 then "uint" else "int") ++ " vals:" ++ ",".intercalate (vals.map showConst)
+      | .error e => enumErrLabel e
+
 def handle (op : String) (args : List String) : String :=
   match op, args with
   | "C13.eval", tree :: _ =>
@@ -165,7 +361,19 @@ def handle (op : String) (args : List String) : String :=
     match parseTree tree with
     | some e => "wf=" ++ (if wfE e then "1" else "0") ++ " kinds=" ++ (if kindsOk e then "1" else "0")
     | none => "bad-request"
-  | "C13.pos", _ => "unsupported: positions are judged by the reference evaluator only"
+  | "C13.pos", site :: _ :: aux :: _ =>
+    if site == "assert" || site == "assertr" then "unsupported: acceptance of assert_eval is judged by the reference evaluator only"
+    else handlePos site aux
+  | "C13.pos", _ => "unsupported: no model input for this position"
+  | "C13.enum", _ :: aux :: _ => handleEnum aux
+  | "C13.enumhyp", _ :: aux :: _ =>
+    -- the hypotheses of `enum_values_c_semantics` / `enum_no_panic`, evaluated on a definition the real front end typed
+    (match (aux.splitOn " | ").mapM parseMemberFull with
+     | none => "bad-request"
+     | some ms =>
+       let ms := ms.map (·.1)
+       "wf=" ++ (if membersWf ms then "1" else "0") ++ " ok=" ++ (if membersOk ms then "1" else "0"))
+  | "C13.enum", _ => "unsupported: no model input for this definition"
   | "C13.src", _ => "unsupported: front-end outcome, outside the evaluator model"
   | _, _ => "unsupported-op"
 
